@@ -7,6 +7,7 @@ props = [json.loads(l) for l in open(os.path.join(V, "properties.jsonl"))]
 ENGINES = {
  "task": ("harness/task.cpp", "exhaustive ordering enumerator on the real promise/task under ASan/UBSan/LSan with counters"),
  "codec": ("harness/codec.cpp", "registry of 125 parse/toXml pairs of the library; DOM mutators, transparent-position probing, canonical comparison; under ASan/UBSan"),
+ "msg": ("harness/msg.cpp", "QXmppMessage split into public/sensitive parts the way the encrypted send path and the OMEMO manager do it, and recovered from both parts"),
  "sasl": ("harness/sasl.cpp", "SaslManager / Sasl2Manager / QXmppSaslClient behind a mock SendDataInterface, driven by JSON lines; Python reference choice function and RFC implementations"),
  "stun": ("harness/stun.cpp", "QXmppStunMessage encode/decode + HMAC/CRC helpers driven by JSON lines; Python hmac/zlib oracle"),
 }
@@ -36,6 +37,10 @@ CHECKS["C02"] = dict(engine="codec", cat="exploration",
    text="seed documents mutated at DOM level by 16 operators (delete/duplicate/reorder/move/re-namespace/strip/empty/hostile numbers, enums, strings/deep nesting/huge text/cross-breeding/rename/unknown children/many siblings); every one of the 125 registered parsers is applied to every element its own type check admits (untyped parsers to all) under ASan+UBSan with a per-application watchdog and RSS limit; output must be well-formed and ser(parse(ser(parse(d)))) == ser(parse(d))",
    note="nesting depth <= 300 quick / 2000 thorough, text <= 64 KiB quick / 1 MiB thorough; uninitialised reads are out of ASan/UBSan's reach; the connected-client half is exercised by the wire engine checks",
    tech="runtime monitoring: sanitizers (ASan/UBSan) + watchdog + fixpoint oracle over structure-aware mutation fuzzing")
+CHECKS["C17"] = dict(engine="msg", cat="exploration",
+   text="messages assembled from all 51 known extension element kinds of the repository's fixtures (every single kind, every pair, random subsets up to all), each kind classified public/sensitive/both from the statement; serialized with toXml(ScePublic) and serializeExtensions(SceSensitive) as the client and the OMEMO manager do; oracle: no sensitive element kind or value in the public bytes, public+sensitive is exactly the element multiset of the combined form, parse(ScePublic)+parseExtensions(SceSensitive) recovers the message and leaves no known extension as unknown",
+   note="classification is our reading of the statement; unknown application-defined extensions are not judged; objects are built by combined-mode parsing of fixtures",
+   tech="runtime monitoring: marker/partition/recovery oracle over generated messages, under ASan/UBSan")
 REASON_TODO = "check not built yet in this session (planned, see DESIGN.md §2)"
 
 def main():
